@@ -292,6 +292,28 @@ class Expander:
                 if not isinstance(node.ctx, ast.Load) or node.id in exp.mutated:
                     return node
                 vals = exp.rd.value_exprs(n, node.id)
+                if len(vals) > 1 and all(v_ is not None and how_ == "bind" for _, v_, how_ in vals) and \
+                        len({ast.dump(v_) for _, v_, _ in vals}) == 1 and not isinstance(vals[0][1], (ast.Tuple, ast.List)) and \
+                        all(isinstance(d_.ast, (ast.Assign, ast.AnnAssign)) and isinstance(
+                            (d_.ast.targets[0] if isinstance(d_.ast, ast.Assign) else d_.ast.target), ast.Name) for d_, _, _ in vals):
+                    # the same expression bound on every path (e.g. recomputed at the end of each loop cycle): it describes
+                    # the name at the use if, from each binding, the use is reached without any of its operands being rebound
+                    v0 = vals[0][1]
+                    if exp.only is not None and not exp.only(v0):
+                        return node
+                    opnames = {x.id for x in ast.walk(v0) if isinstance(x, ast.Name) and isinstance(x.ctx, ast.Load)}
+                    if node.id in opnames or (opnames & exp.mutated):
+                        return node
+                    redefs = [m for m in exp.cfg.nodes if any(k in opnames for k, _, _ in node_defs(m))]
+                    own = {d_ for d_, _, _ in vals}
+                    for d_, _, _ in vals:
+                        after_d = exp.cfg.reachable(d_, follow_exc=False, avoid=lambda m: m in own and m is not d_)
+                        for m in redefs:
+                            if m in after_d and m is not d_:
+                                # is the use reachable from m without passing a binding of the name again?
+                                if n in exp.cfg.reachable(m, follow_exc=False, avoid=lambda q: q in own) or m is n:
+                                    return node
+                    return _c.deepcopy(v0)
                 if len(vals) != 1:
                     return node
                 d, v, how = vals[0]
@@ -332,7 +354,14 @@ class Expander:
             def _is_object(self, name_node):
                 """a name bound to the result of a call (constructor, factory): an object reference, not a formula"""
                 vals = exp.rd.value_exprs(n, name_node.id)
-                return len(vals) != 1 or vals[0][1] is None or isinstance(vals[0][1], ast.Call)
+                if len(vals) != 1 or vals[0][1] is None:
+                    return True
+                v_ = vals[0][1]
+                if isinstance(v_, ast.Call):
+                    from .core import dotted as _d
+                    # the result of a numpy / scipy function is a value (an array), not an object with identity of its own
+                    return not (_d(v_.func) or "").startswith(("np.", "numpy.", "sp.", "scipy."))
+                return False
 
             def visit_Attribute(self, node):
                 # `obj.attr`: an object reference is not replaced by the call that created it
